@@ -30,7 +30,8 @@ def declare(U):
     m.modifies("self.pstarted")
     m.ensures("self.pstarted")
     m = W.method("join", {"timeout": ANY}, trusted=True)
-    m.requires("self.retired", "owed@join:a-worker-is-joined-only-after-it-retired(or-was-sent-its-stop-token)")
+    m.requires("self.retired or (self.owner != None and self.owner._work_queue != None and self.owner._work_queue.stops >= len(self.owner.procs))",
+               "owed@join:a-worker-is-joined-only-after-it-retired-or-after-one-stop-token-per-worker-was-put-on-the-work-queue")
     m.modifies("self.pjoined", "self.exitcode")
     m.ensures("self.pjoined")
     F = E.cls("FunctorWorkerFactory", fields={})
@@ -62,15 +63,20 @@ POOLX_FIELDS = {"procs": SeqS(RefS("BaseFunctorWorker")), "_wid_counter": INT, "
 POOLX_GHOST = {"widslot": ArrS(INT, INT), "slot": ArrS(RefS("BaseFunctorWorker"), INT)}
 
 
-def unit():
-    U = Unit("C03/FactoryFunctorPool", "C03")
+def base(U, more_fields=None):
     c01_ownpools.POOL_FIELDS_EXTRA.update(POOLX_FIELDS)
+    c01_ownpools.POOL_FIELDS_EXTRA.update(more_fields or {})
     c01_ownpools.POOL_GHOST_EXTRA.update(POOLX_GHOST)
     try:
-        M, P, S, T, W, FP, RQ = declare(U)
+        return declare(U)
     finally:
         c01_ownpools.POOL_FIELDS_EXTRA.clear()
         c01_ownpools.POOL_GHOST_EXTRA.clear()
+
+
+def unit():
+    U = Unit("C03/FactoryFunctorPool", "C03")
+    M, P, S, T, W, FP, RQ = base(U)
     U.var("w", RefS("BaseFunctorWorker"))
     # workers(p): the worker table of pool p is well formed
     U.define("slots", ["p"],
